@@ -46,7 +46,7 @@ PROFILES = {
     # property: [(profile, quick n, thorough n)]
     "C01": [("base", 700, 12000), ("faults", 300, 6000), ("long", 25, 400), ("burst", 12, 200)],
     "C04": [("base", 900, 16000), ("faults", 200, 4000), ("long", 60, 800), ("lazy", 12, 200)],
-    "C05": [("base", 700, 12000), ("faults", 200, 4000), ("handshake", 150, 2000)],
+    "C05": [("base", 700, 12000), ("faults", 200, 4000), ("handshake", 150, 2000), ("lazy", 12, 200)],
     "C08": [("faults", 900, 16000), ("base", 200, 3000), ("lazy", 12, 200), ("handshake", 150, 2500)],
     "C17": [("art", 250, 5000)],
     "C18": [("handshake", 1500, 30000)],
